@@ -108,6 +108,8 @@ def main():
     if args.seeded:
         for meta in sorted((ROOT / "seeded").glob("*/meta.json")):
             j = json.loads(meta.read_text())
+            if j.get("disputed") and not args.only:
+                continue  # kept for the record, not counted (see its meta.json)
             muts.append({"name": "seeded-" + meta.parent.name, "prop": j["property"],
                          "checks": j.get("checks", [j["property"]]), "patch": str(meta.parent / "patch.diff"),
                          "tier": j.get("tier", "quick")})
